@@ -983,6 +983,12 @@ func ReachingDefs(a *ssa.Alloc, at Loc) []ssa.Value { return ReachingDefsFrom(a,
 // instruction `stop`: a backward walk that arrives at stop without having seen
 // a store yields Zero (the variable was not assigned since stop).
 func ReachingDefsFrom(a *ssa.Alloc, at Loc, stop ssa.Instruction) []ssa.Value {
+	return reachingDefs(a, at, stop, nil)
+}
+
+// reachingDefs: as ReachingDefsFrom, additionally never walking backwards over an edge in cut
+// (the definitions that reach along paths consistent with the branch outcomes the caller fixed).
+func reachingDefs(a *ssa.Alloc, at Loc, stop ssa.Instruction, cut map[Edge]bool) []ssa.Value {
 	var out []ssa.Value
 	seenV := map[ssa.Value]bool{}
 	add := func(v ssa.Value) {
@@ -1042,6 +1048,17 @@ func ReachingDefsFrom(a *ssa.Alloc, at Loc, stop ssa.Instruction) []ssa.Value {
 			if seenB[p] {
 				continue
 			}
+			if len(cut) > 0 {
+				skip := false
+				for si, sb := range p.Succs {
+					if sb == b && cut[Edge{p, si}] {
+						skip = true
+					}
+				}
+				if skip && !(len(p.Succs) == 2 && p.Succs[0] == p.Succs[1]) {
+					continue
+				}
+			}
 			if fwd != nil && !fwd[p] && p != stop.Block() {
 				continue
 			}
@@ -1058,9 +1075,34 @@ func ReachingDefsFrom(a *ssa.Alloc, at Loc, stop ssa.Instruction) []ssa.Value {
 func Resolve(v ssa.Value) []ssa.Value { return ResolveFrom(v, nil) }
 
 // ResolveFrom is Resolve with local variables resolved along paths starting after stop.
-func ResolveFrom(v ssa.Value, stop ssa.Instruction) []ssa.Value {
+func ResolveFrom(v ssa.Value, stop ssa.Instruction) []ssa.Value { return resolveFrom(v, stop, nil) }
+
+func resolveFrom(v ssa.Value, stop ssa.Instruction, cut map[Edge]bool) []ssa.Value {
 	var out []ssa.Value
 	seen := map[ssa.Value]bool{}
+	// blocks reachable from stop without the cut edges: a phi takes an incoming value only from such a predecessor
+	var reach map[*ssa.BasicBlock]bool
+	if stop != nil && stop.Block() != nil {
+		reach = map[*ssa.BasicBlock]bool{}
+		var work []*ssa.BasicBlock
+		push := func(b *ssa.BasicBlock) {
+			for si, sb := range b.Succs {
+				if !cut[Edge{b, si}] {
+					work = append(work, sb)
+				}
+			}
+		}
+		push(stop.Block())
+		for len(work) > 0 {
+			b := work[0]
+			work = work[1:]
+			if reach[b] {
+				continue
+			}
+			reach[b] = true
+			push(b)
+		}
+	}
 	var rec func(v ssa.Value, d int)
 	rec = func(v ssa.Value, d int) {
 		if v != Zero && v != nil {
@@ -1075,14 +1117,29 @@ func ResolveFrom(v ssa.Value, stop ssa.Instruction) []ssa.Value {
 		}
 		switch x := v.(type) {
 		case *ssa.Phi:
-			for _, e := range x.Edges {
+			for i, e := range x.Edges {
+				if reach != nil && i < len(x.Block().Preds) {
+					pred := x.Block().Preds[i]
+					if !reach[pred] && pred != stop.Block() {
+						continue
+					}
+					edgeCut := false
+					for si, sb := range pred.Succs {
+						if sb == x.Block() && cut[Edge{pred, si}] {
+							edgeCut = true
+						}
+					}
+					if edgeCut && !(len(pred.Succs) == 2 && pred.Succs[0] == pred.Succs[1]) {
+						continue
+					}
+				}
 				rec(e, d-1)
 			}
 			return
 		case *ssa.UnOp:
 			if x.Op == token.MUL {
 				if a, ok := x.X.(*ssa.Alloc); ok {
-					for _, dv := range ReachingDefsFrom(a, LocOf(x), stop) {
+					for _, dv := range reachingDefs(a, LocOf(x), stop, cut) {
 						rec(dv, d-1)
 					}
 					return
@@ -1159,8 +1216,13 @@ func ErrKinds(op ssa.Value, e ssa.Value) map[string]bool { return ErrKindsFrom(o
 
 // ErrKindsFrom classifies along paths that start after instruction stop.
 func ErrKindsFrom(op ssa.Value, e ssa.Value, stop ssa.Instruction) map[string]bool {
+	return ErrKindsFromCut(op, e, stop, nil)
+}
+
+// ErrKindsFromCut classifies along paths that start after stop and do not use the cut edges.
+func ErrKindsFromCut(op ssa.Value, e ssa.Value, stop ssa.Instruction, cut map[Edge]bool) map[string]bool {
 	out := map[string]bool{}
-	for _, v := range ResolveFrom(op, stop) {
+	for _, v := range resolveFrom(op, stop, cut) {
 		switch {
 		case v == Zero || v == nil || IsNilConst(v):
 			out["nil"] = true
